@@ -110,8 +110,22 @@ float slangs(char *norm, SuperMatrix *A)
 	SUPERLU_FREE (rwork);
 	
     } else if (lsame_(norm, "F") || lsame_(norm, "E")) {
-	/* Find normF(A). */
-	SUPERLU_ABORT("Not implemented.");
+	/* Find normF(A) as scale*sqrt(ssq): a scaled sum of squares, so that
+	   no intermediate overflows or underflows (as in LAPACK's xLASSQ). */
+	float scale = 0., ssq = 1., absx;
+	for (j = 0; j < A->ncol; ++j)
+	    for (i = Astore->colptr[j]; i < Astore->colptr[j+1]; i++) {
+		absx = fabs( Aval[i] );
+		if ( absx != 0. ) {
+		    if ( scale < absx ) {
+			ssq = 1. + ssq * (scale/absx) * (scale/absx);
+			scale = absx;
+		    } else {
+			ssq += (absx/scale) * (absx/scale);
+		    }
+		}
+	    }
+	value = scale * sqrt(ssq);
     } else
 	SUPERLU_ABORT("Illegal norm specified.");
 
